@@ -168,7 +168,8 @@ def capsule_capsule(
   det = ma * mc - mb * mb
 
   # non-parallel axes: 1 contact
-  if wp.abs(det) >= MJ_MINVAL:
+  # (det = ma * mc * sin^2(angle); in float32 exactly parallel axes give round-off of order 1e-7 * ma * mc, not 0)
+  if wp.abs(det) >= wp.max(MJ_MINVAL, 1.0e-6 * ma * mc):
     inv_det = 1.0 / det
     x1 = (mc * u - mb * v) * inv_det
     x2 = (ma * v - mb * u) * inv_det
